@@ -365,6 +365,10 @@ func (g *Gen) tags() []TagKV {
 		if g.Tokens {
 			k = g.word()
 		}
+		if g.Hostile && !g.Tokens && g.r.chance(30) {
+			// a key with bytes a printer has to escape (keys are printed as safe strings)
+			k = g.sU()
+		}
 		switch g.r.intn(4) {
 		case 0:
 			out = append(out, TagKV{K: k, Kind: "nil"})
